@@ -1,0 +1,1118 @@
+//go:build verif
+
+// Laws of the object-layer model (C09) and contracts of Circle (C13).
+// Read by /verif/govc (comment-only file, compiled only under the build tag "verif").
+
+package geojson
+
+// ================================================================ PART A: C09 laws over the object-layer model
+//
+// The code is tied to the model (oContains / oIntersects / sp*) by the proved per-method contracts of the leaf kinds and
+// Feature (zz_contracts_obj_verif.go) and by the behavioural-subtyping obligations against Object.* / Spatial.*.
+// The laws below are lemmas over the model only.
+
+// ---------------------------------------------------------------- kinds and base geometries
+
+//@ spec func isPtK(o Object) bool { isPointK(o) || isSimplePointK(o) }
+//@ spec func isLeafK(o Object) bool { isPointK(o) || isSimplePointK(o) || isLineStringK(o) || isPolygonK(o) || isRectK(o) }
+//@ spec func ptOf(o Object) geometry.Point { ite(isPointK(o), as(o,*Point).base, as(o,*SimplePoint).Point) }
+//@ spec func lineOf(o Object) *geometry.Line { as(o,*LineString).base }
+//@ spec func polyOf(o Object) *geometry.Poly { as(o,*Polygon).base }
+//@ spec func rectOf(o Object) geometry.Rect { as(o,*Rect).base }
+
+// ---------------------------------------------------------------- A.2 geometry-level symmetry facts  <k>Intersects<A>S(x,y) == <a>Intersects<K>S(y,x)
+
+//@ lemma geomSymPointRect(p geometry.Point, r geometry.Rect)
+//@   props C09
+//@   ensures geometry.pointIntersectsRectS(p, r) == geometry.rectIntersectsPointS(r, p)
+
+//@ lemma geomSymRectRect(r geometry.Rect, o geometry.Rect)
+//@   props C09
+//@   ensures geometry.rectIntersectsRectS(r, o) == geometry.rectIntersectsRectS(o, r)
+
+//@ lemma geomSymPointLine(p geometry.Point, l *geometry.Line)
+//@   props C09
+//@   ensures geometry.pointIntersectsLineS(p, l) == geometry.lineIntersectsPointS(l, p)
+
+//@ lemma geomSymPointPoly(p geometry.Point, P *geometry.Poly)
+//@   props C09
+//@   ensures geometry.pointIntersectsPolyS(p, P) == geometry.polyIntersectsPointS(P, p)
+
+//@ lemma geomSymRectLine(r geometry.Rect, l *geometry.Line)
+//@   props C09
+//@   ensures geometry.rectIntersectsLineS(r, l) == geometry.lineIntersectsRectS(l, r)
+
+//@ lemma geomSymRectPoly(r geometry.Rect, P *geometry.Poly)
+//@   props C09
+//@   ensures geometry.rectIntersectsPolyS(r, P) == geometry.polyIntersectsRectS(P, r)
+
+//@ lemma geomSymLinePoly(l *geometry.Line, P *geometry.Poly)
+//@   props C09
+//@   ensures geometry.lineIntersectsPolyS(l, P) == geometry.polyIntersectsLineS(P, l)
+
+//@ lemma geomSymLineLine(l *geometry.Line, m *geometry.Line)
+//@   props C09
+//@   use lineXLineSym(l, m)
+//@   ensures geometry.lineIntersectsLineS(l, m) == geometry.lineIntersectsLineS(m, l)
+
+// Poly x Poly: polyIntersectsPolyS is symmetric in its hole clauses; the exterior clause ringIntersectsRingS(ext Q, ext P) tests the
+// segments of the ring with the smaller bounding box against the other ring, so the two operand orders differ only when the two
+// bounding boxes have EQUAL area (then: segments of b against ring a  versus  segments of a against ring b).
+// RELATIVE clause (design: C02 symmetry "relative for Poly x Poly"): the leaf risS (answer of the trusted planar case analysis
+// ringIntersectsSegment) is uninterpreted, so this instance of exactness is assumed.
+//@ axiom geomSymRisAny(a geometry.Series, b geometry.Series)
+//@   requires geometry.RingInv(a) && geometry.RingInv(b) && !geometry.sEmpty(a) && !geometry.sEmpty(b)
+//@   requires geometry.rectsMeet(geometry.sRect(a), geometry.sRect(b)) && geometry.rectAreaS(geometry.sRect(a)) == geometry.rectAreaS(geometry.sRect(b))
+//@   ensures geometry.risAnyS(a, b, true) == geometry.risAnyS(b, a, true)
+
+//@ lemma geomSymRingRing(a geometry.Series, b geometry.Series)
+//@   props C09
+//@   requires geometry.RingInv(a) && geometry.RingInv(b)
+//@   use geomSymRisAny(a, b)
+//@   use geomSymRisAny(b, a)
+//@   ensures geometry.ringIntersectsRingS(a, b, true) == geometry.ringIntersectsRingS(b, a, true)
+
+//@ lemma geomSymPolyPoly(P *geometry.Poly, Q *geometry.Poly)
+//@   props C09
+//@   requires geometry.PolyInv(P) && geometry.PolyInv(Q)
+//@   use geomSymRingRing(geometry.polyExt(P), geometry.polyExt(Q))
+//@   ensures geometry.polyIntersectsPolyS(P, Q) == geometry.polyIntersectsPolyS(Q, P)
+
+// ---------------------------------------------------------------- A.2 symmetry of oIntersects, one lemma per unordered pair of geometry kinds
+// (Pt = Point or SimplePoint: the ten lemmas cover the 25 ordered pairs of leaf kinds)
+
+//@ lemma symPtPt(a Object, b Object)
+//@   props C09
+//@   requires isPtK(a) && isPtK(b) && ObjInv(a) && ObjInv(b)
+//@   unfold 2
+//@   ensures oIntersects(a, b) == oIntersects(b, a)
+
+//@ lemma symPtRect(a Object, b Object)
+//@   props C09
+//@   requires isPtK(a) && isRectK(b) && ObjInv(a) && ObjInv(b)
+//@   unfold 2
+//@   use geomSymPointRect(ptOf(a), rectOf(b))
+//@   ensures oIntersects(a, b) == oIntersects(b, a)
+
+//@ lemma symPtLine(a Object, b Object)
+//@   props C09
+//@   requires isPtK(a) && isLineStringK(b) && ObjInv(a) && ObjInv(b)
+//@   unfold 2
+//@   use geomSymPointLine(ptOf(a), lineOf(b))
+//@   ensures oIntersects(a, b) == oIntersects(b, a)
+
+// (normal forms first: each side unfolds to ONE geometry predicate; the symmetry proof then is propositional)
+//@ lemma nfPtPoly(a Object, b Object)
+//@   props C09
+//@   requires isPtK(a) && isPolygonK(b)
+//@   unfold 2
+//@   ensures AB: oIntersects(a, b) == geometry.polyIntersectsPointS(polyOf(b), ptOf(a))
+//@   ensures BA: oIntersects(b, a) == geometry.pointIntersectsPolyS(ptOf(a), polyOf(b))
+//@ lemma symPtPoly(a Object, b Object)
+//@   props C09
+//@   requires isPtK(a) && isPolygonK(b) && ObjInv(a) && ObjInv(b)
+//@   use nfPtPoly(a, b)
+//@   use geomSymPointPoly(ptOf(a), polyOf(b))
+//@   ensures oIntersects(a, b) == oIntersects(b, a)
+
+//@ lemma symRectRect(a Object, b Object)
+//@   props C09
+//@   requires isRectK(a) && isRectK(b) && ObjInv(a) && ObjInv(b)
+//@   unfold 2
+//@   use geomSymRectRect(rectOf(a), rectOf(b))
+//@   ensures oIntersects(a, b) == oIntersects(b, a)
+
+//@ lemma symRectLine(a Object, b Object)
+//@   props C09
+//@   requires isRectK(a) && isLineStringK(b) && ObjInv(a) && ObjInv(b)
+//@   unfold 2
+//@   use geomSymRectLine(rectOf(a), lineOf(b))
+//@   ensures oIntersects(a, b) == oIntersects(b, a)
+
+//@ lemma symRectPoly(a Object, b Object)
+//@   props C09
+//@   requires isRectK(a) && isPolygonK(b) && ObjInv(a) && ObjInv(b)
+//@   unfold 2
+//@   use geomSymRectPoly(rectOf(a), polyOf(b))
+//@   ensures oIntersects(a, b) == oIntersects(b, a)
+
+//@ lemma symLineLine(a Object, b Object)
+//@   props C09
+//@   requires isLineStringK(a) && isLineStringK(b) && ObjInv(a) && ObjInv(b)
+//@   unfold 2
+//@   use geomSymLineLine(lineOf(a), lineOf(b))
+//@   ensures oIntersects(a, b) == oIntersects(b, a)
+
+//@ lemma symLinePoly(a Object, b Object)
+//@   props C09
+//@   requires isLineStringK(a) && isPolygonK(b) && ObjInv(a) && ObjInv(b)
+//@   unfold 2
+//@   use geomSymLinePoly(lineOf(a), polyOf(b))
+//@   ensures oIntersects(a, b) == oIntersects(b, a)
+
+//@ lemma symPolyPoly(a Object, b Object)
+//@   props C09
+//@   requires isPolygonK(a) && isPolygonK(b) && ObjInv(a) && ObjInv(b)
+//@   unfold 2
+//@   use geomSymPolyPoly(polyOf(a), polyOf(b))
+//@   ensures oIntersects(a, b) == oIntersects(b, a)
+
+// ================================================================ model of Empty / Rect / Valid / NumPoints by kind (C09 clause 3, C11 at object level)
+// leaves owned by the collection contracts (defined WITH a body there) and by Circle (below)
+//@ spec func collEmptyS(c *collection) bool
+//@ spec func collRectS(c *collection) geometry.Rect
+//@ spec func collValidS(c *collection) bool
+//@ spec func collNumPointsS(c *collection) int
+// the polygon approximation of a circle (value of Circle.getObject(), see PART B)
+//@ spec func circlePolyS(center geometry.Point, meters real, steps int) Object
+//@ spec func circleObjS(c Object) Object { circlePolyS(as(c,*Circle).center, as(c,*Circle).meters, as(c,*Circle).steps) }
+
+//@ spec func rectValidS(r geometry.Rect) bool { geometry.validPt(geometry.rectPt(r,0)) && geometry.validPt(geometry.rectPt(r,1)) && geometry.validPt(geometry.rectPt(r,2)) && geometry.validPt(geometry.rectPt(r,3)) }
+//@ spec func lineValidS(l *geometry.Line) bool { geometry.bsAllValid(l.baseSeries, len(l.baseSeries.points)) }
+// (a polygon without exterior ring -- NewPolygon(nil) -- is valid and has 0 points: fix 765501d of F6)
+//@ spec func polyValidS(P *geometry.Poly) bool { geometry.polyExt(P) == nil || (geometry.sValid(geometry.polyExt(P)) && geometry.polyHolesValid(P, geometry.polyNHoles(P))) }
+//@ spec func polyHolesNpts(P *geometry.Poly, k int) int rec { ite(k <= 0, 0, polyHolesNpts(P, k-1) + geometry.sNpts(geometry.polyHole(P, k-1))) }
+
+//@ spec func oEmptyS(o Object) bool rec {
+//@     ite(isLineStringK(o), geometry.lineEmptyS(lineOf(o)),
+//@         ite(isPolygonK(o), geometry.polyEmptyS(polyOf(o)),
+//@         ite(isFeatureK(o), oEmptyS(ftBase(o)),
+//@         ite(isCollObjK(o), collEmptyS(collOf(o)), false)))) }
+//@ spec func oRectS(o Object) geometry.Rect rec {
+//@     ite(isPtK(o), geometry.mkRect(ptOf(o), ptOf(o)),
+//@         ite(isLineStringK(o), geometry.lineRectS(lineOf(o)),
+//@         ite(isPolygonK(o), geometry.polyRectS(polyOf(o)),
+//@         ite(isRectK(o), rectOf(o),
+//@         ite(isFeatureK(o), oRectS(ftBase(o)),
+//@         ite(isCircleK(o), oRectS(circleObjS(o)),
+//@             collRectS(collOf(o)))))))) }
+//@ spec func oValidS(o Object) bool rec {
+//@     ite(isPtK(o), geometry.validPt(ptOf(o)),
+//@         ite(isLineStringK(o), lineValidS(lineOf(o)),
+//@         ite(isPolygonK(o), polyValidS(polyOf(o)),
+//@         ite(isRectK(o), rectValidS(rectOf(o)),
+//@         ite(isFeatureK(o), oValidS(ftBase(o)),
+//@         ite(isCircleK(o), oValidS(circleObjS(o)),
+//@             collValidS(collOf(o)))))))) }
+//@ spec func oNumPointsS(o Object) int rec {
+//@     ite(isPtK(o) || isCircleK(o), 1,
+//@         ite(isLineStringK(o), len(lineOf(o).baseSeries.points),
+//@         ite(isPolygonK(o), ite(geometry.polyExt(polyOf(o)) == nil, 0, geometry.sNpts(geometry.polyExt(polyOf(o))) + polyHolesNpts(polyOf(o), geometry.polyNHoles(polyOf(o)))),
+//@         ite(isRectK(o), 2,
+//@         ite(isFeatureK(o), oNumPointsS(ftBase(o)),
+//@             collNumPointsS(collOf(o))))))) }
+
+// shape invariant: what panic-freedom of Empty/Valid/Rect/NumPoints needs. ObjInv(o) ==> ObjShape(o) by ONE unfolding (first disjunct),
+// so callers that hold ObjInv need no lemma. The shape-only disjunct drops the lattice-domain clauses (LineInv of a LineString);
+// for a Polygon it is the structural geometry.PolyShape / PolyShapeW accepted by geometry.Poly.Empty/Rect/Valid.
+//@ spec func polyShapeS(P *geometry.Poly) bool { geometry.PolyInv(P) || geometry.PolyShape(P) || geometry.PolyShapeW(P) }
+//@ spec func ObjShape(o Object) bool rec {
+//@     ObjInv(o) ||
+//@     (o != nil && (isPolygonK(o) ==> polyShapeS(polyOf(o))) &&
+//@      (isFeatureK(o) ==> (ftBase(o) != nil && ObjShape(ftBase(o)))) &&
+//@      (isCircleK(o) ==> as(o,*Circle).object == nil) &&
+//@      (isCollObjK(o) ==> (collOf(o) != nil && CollKidsInv(collOf(o)) && ((isMultiLineStringK(o) || isMultiPolygonK(o)) || CollInv(collOf(o))))) &&   // MultiLineString/MultiPolygon.Valid run before parseInitRectIndex
+//@      (isPointK(o) || isSimplePointK(o) || isLineStringK(o) || isPolygonK(o) || isRectK(o) || isFeatureK(o) || isCircleK(o) || isCollObjK(o))) }
+//@ lemma objShapeOf(o Object)
+//@   props C09 C11
+//@   requires ObjInv(o)
+//@   ensures ObjShape(o)
+
+//@ func Object.Empty
+//@   props C09 C11
+//@   requires ObjShape(self)
+//@   ensures result == oEmptyS(self)
+//@ func Object.Rect
+//@   props C09 C11
+//@   requires ObjShape(self)
+//@   ensures result == oRectS(self)
+//@ func Object.Valid
+//@   props C09 C11
+//@   requires ObjShape(self)
+//@   ensures result == oValidS(self)
+//@ func Object.NumPoints
+//@   props C09 C11
+//@   requires ObjShape(self)
+//@   ensures result == oNumPointsS(self)
+
+// ---- leaf kinds, Feature (Circle: PART B)
+//@ func Point.Empty
+//@   props C09 C11
+//@   arith order
+//@   requires ObjShape(g)
+//@   unfold 2
+//@   ensures result == oEmptyS(g)
+//@ func Point.Rect
+//@   props C09 C11
+//@   arith order
+//@   requires ObjShape(g)
+//@   unfold 2
+//@   ensures result == oRectS(g)
+//@ func Point.Valid
+//@   props C09 C11
+//@   arith order
+//@   requires ObjShape(g)
+//@   unfold 2
+//@   ensures result == oValidS(g)
+//@ func Point.NumPoints
+//@   props C09 C11
+//@   arith order
+//@   requires ObjShape(g)
+//@   unfold 2
+//@   ensures result == oNumPointsS(g)
+
+//@ func SimplePoint.Empty
+//@   props C09 C11
+//@   arith order
+//@   requires ObjShape(g)
+//@   unfold 2
+//@   ensures result == oEmptyS(g)
+//@ func SimplePoint.Rect
+//@   props C09 C11
+//@   arith order
+//@   requires ObjShape(g)
+//@   unfold 2
+//@   ensures result == oRectS(g)
+//@ func SimplePoint.Valid
+//@   props C09 C11
+//@   arith order
+//@   requires ObjShape(g)
+//@   unfold 2
+//@   ensures result == oValidS(g)
+//@ func SimplePoint.NumPoints
+//@   props C09 C11
+//@   arith order
+//@   requires ObjShape(g)
+//@   unfold 2
+//@   ensures result == oNumPointsS(g)
+
+//@ func Rect.Empty
+//@   props C09 C11
+//@   arith order
+//@   requires ObjShape(g)
+//@   unfold 2
+//@   ensures result == oEmptyS(g)
+//@ func Rect.Rect
+//@   props C09 C11
+//@   arith order
+//@   requires ObjShape(g)
+//@   unfold 2
+//@   ensures result == oRectS(g)
+//@ func Rect.Valid
+//@   props C09 C11
+//@   arith order
+//@   requires ObjShape(g)
+//@   unfold 2
+//@   ensures result == oValidS(g)
+//@ func Rect.NumPoints
+//@   props C09 C11
+//@   arith order
+//@   requires ObjShape(g)
+//@   unfold 2
+//@   ensures result == oNumPointsS(g)
+//@ func Rect.Center
+//@   props C11
+//@   arith order
+//@   requires g != nil
+//@   ensures result == geometry.mkPoint(fdiv(fadd(g.base.Max.X, g.base.Min.X), 2), fdiv(fadd(g.base.Max.Y, g.base.Min.Y), 2))
+// Rect.Polygon(): the equivalent polygon of C09 ("a Rect answers as the equivalent five-point Polygon"): exterior = the rectangle as a ring, no holes
+//@ spec func isRectPolyS(P *geometry.Poly, r geometry.Rect) bool { P != nil && geometry.polyExt(P) == boxRect(r) && geometry.polyNHoles(P) == 0 }
+//@ func Rect.Polygon
+//@   props C09
+//@   arith order
+//@   requires g != nil
+//@   ensures isPolygonK(result) && !old($alloc)[result] && isRectPolyS(polyOf(result), g.base)
+
+//@ func LineString.Empty
+//@   props C09 C11
+//@   arith order
+//@   requires ObjShape(g)
+//@   unfold 2
+//@   ensures result == oEmptyS(g)
+//@ func LineString.Rect
+//@   props C09 C11
+//@   arith order
+//@   requires ObjShape(g)
+//@   unfold 2
+//@   ensures result == oRectS(g)
+//@ func LineString.Valid
+//@   props C09 C11
+//@   arith order
+//@   requires ObjShape(g)
+//@   unfold 2
+//@   ensures result == oValidS(g)
+//@ func LineString.NumPoints
+//@   props C09 C11
+//@   arith order
+//@   requires ObjShape(g)
+//@   unfold 2
+//@   ensures result == oNumPointsS(g)
+
+//@ func Polygon.Empty
+//@   props C09 C11
+//@   requires ObjShape(g)
+//@   unfold 2
+//@   ensures result == oEmptyS(g)
+//@ func Polygon.Rect
+//@   props C09 C11
+//@   requires ObjShape(g)
+//@   unfold 2
+//@   ensures result == oRectS(g)
+// F6 (fixed by 765501d): NewPolygon(nil) leaves base.Exterior nil (the invariant allows it: Empty()/Rect() handle it); before the fix
+// Valid() and NumPoints() called a method on the nil interface: Polygon.Valid#pre.call0.0 and Polygon.NumPoints#safe.nil.2 / #pre.call0.0 failed
+// under ObjShape (witness NewPolygon(nil), replayed: nil-pointer panic). Now Valid() is true and NumPoints() is 0 for such a polygon.
+//@ func Polygon.Valid
+//@   props C09 C11 C05
+//@   requires ObjShape(g)
+//@   unfold 2
+//@   ensures result == oValidS(g)
+//@ lemma holesNptsStep(P *geometry.Poly, k int)
+//@   props C11
+//@   requires k > 0
+//@   ensures polyHolesNpts(P, k) == polyHolesNpts(P, k-1) + geometry.sNpts(geometry.polyHole(P, k-1))
+//@ func Polygon.NumPoints
+//@   props C09 C11 C05
+//@   requires ObjShape(g)
+//@   unfold 2
+//@   ensures result == oNumPointsS(g)
+//@   loop 0 invariant n == geometry.sNpts(geometry.polyExt(polyOf(g))) + polyHolesNpts(polyOf(g), $i)
+//@   loop 0 assert geometry.polyHole(polyOf(g), $i) == hole
+
+// a polygon value copied field by field keeps its invariant (PolyInv is opaque: unfolded here once, passed by congruence elsewhere)
+//@ lemma polyInvCopy(P *geometry.Poly, Q *geometry.Poly)
+//@   props C09 C11
+//@   requires geometry.PolyInv(P) && Q != nil && Q.Exterior == P.Exterior && Q.Holes == P.Holes
+//@   ensures geometry.PolyInv(Q)
+//@ lemma polyInvEmpty(Q *geometry.Poly)
+//@   props C09 C11
+//@   requires Q != nil && Q.Exterior == nil && len(Q.Holes) == 0
+//@   ensures geometry.PolyInv(Q)
+//@ func NewPolygon
+//@   props C09 C11 C05
+//@   requires poly != nil ==> geometry.PolyInv(poly)
+//@   ret use polyInvCopy(poly, polyOf(g))
+//@   ret use polyInvEmpty(polyOf(g))
+//@   ret have E: poly != nil ==> (polyOf(g).Exterior == poly.Exterior && polyOf(g).Holes == poly.Holes)
+//@   ret have Z: poly == nil ==> (polyOf(g).Exterior == nil && len(polyOf(g).Holes) == 0)
+//@   ret have NN: polyOf(g) != nil
+//@   ret have PO: poly != nil ==> geometry.PolyInv(poly)   // framing: the stores went to the fresh object only
+//@   ret have PI: geometry.PolyInv(polyOf(g))
+//@   ret have K: isPolygonK(g)
+//@   ensures Fresh: result != nil && !old($alloc)[result]
+//@   ensures Nil: poly == nil ==> (geometry.polyExt(polyOf(result)) == nil && geometry.polyNHoles(polyOf(result)) == 0)
+//@   ensures Copy: poly != nil ==> (geometry.polyExt(polyOf(result)) == geometry.polyExt(poly) && polyOf(result).Holes == poly.Holes)
+//@   ensures Inv: ObjInv(result)
+
+//@ func Feature.Empty
+//@   props C09 C11
+//@   arith order
+//@   requires ObjShape(g)
+//@   unfold 2
+//@   ensures result == oEmptyS(g)
+//@ func Feature.Rect
+//@   props C09 C11
+//@   arith order
+//@   requires ObjShape(g)
+//@   unfold 2
+//@   ensures result == oRectS(g)
+//@ func Feature.Valid
+//@   props C09 C11
+//@   arith order
+//@   requires ObjShape(g)
+//@   unfold 2
+//@   ensures result == oValidS(g)
+//@ func Feature.NumPoints
+//@   props C09 C11
+//@   arith order
+//@   requires ObjShape(g)
+//@   unfold 2
+//@   ensures result == oNumPointsS(g)
+
+// ---------------------------------------------------------------- A.2 all 25 ordered pairs of leaf kinds at once
+
+//@ lemma symLeaf(a Object, b Object)
+//@   props C09
+//@   requires isLeafK(a) && isLeafK(b) && ObjInv(a) && ObjInv(b)
+//@   use symPtPt(a, b)
+//@   use symPtRect(a, b)
+//@   use symPtRect(b, a)
+//@   use symPtLine(a, b)
+//@   use symPtLine(b, a)
+//@   use symPtPoly(a, b)
+//@   use symPtPoly(b, a)
+//@   use symRectRect(a, b)
+//@   use symRectLine(a, b)
+//@   use symRectLine(b, a)
+//@   use symRectPoly(a, b)
+//@   use symRectPoly(b, a)
+//@   use symLineLine(a, b)
+//@   use symLinePoly(a, b)
+//@   use symLinePoly(b, a)
+//@   use symPolyPoly(a, b)
+//@   ensures oIntersects(a, b) == oIntersects(b, a)
+
+// ---------------------------------------------------------------- A.3 transparency of Feature
+
+//@ spec func geomOf(o Object) Object { ite(isFeatureK(o), ftBase(o), o) }
+// a leaf, or a Feature whose geometry is a leaf
+//@ spec func isGeomK(o Object) bool { isLeafK(geomOf(o)) }
+
+// receiver position: definitional (Feature.Contains / Feature.Intersects forward to the base)
+//@ lemma ftLeft(f Object, b Object)
+//@   props C09
+//@   requires isFeatureK(f)
+//@   ensures C: oContains(f, b) == oContains(ftBase(f), b)
+//@   ensures I: oIntersects(f, b) == oIntersects(ftBase(f), b)
+
+// Feature as a Spatial: its own Spatial() and the eight Within*/Intersects* answer as the geometry
+//@ lemma ftSpatial(f Object, p geometry.Point, r geometry.Rect, l *geometry.Line, P *geometry.Poly)
+//@   props C09
+//@   requires isFeatureK(f)
+//@   ensures Sp: oSpatial(f) == f
+//@   ensures WPoint: spWithinPoint(f, p) == spWithinPoint(oSpatial(ftBase(f)), p)
+//@   ensures IPoint: spIntersectsPoint(f, p) == spIntersectsPoint(oSpatial(ftBase(f)), p)
+//@   ensures WRect: spWithinRect(f, r) == spWithinRect(oSpatial(ftBase(f)), r)
+//@   ensures IRect: spIntersectsRect(f, r) == spIntersectsRect(oSpatial(ftBase(f)), r)
+//@   ensures WLine: spWithinLine(f, l) == spWithinLine(oSpatial(ftBase(f)), l)
+//@   ensures ILine: spIntersectsLine(f, l) == spIntersectsLine(oSpatial(ftBase(f)), l)
+//@   ensures WPoly: spWithinPoly(f, P) == spWithinPoly(oSpatial(ftBase(f)), P)
+//@   ensures IPoly: spIntersectsPoly(f, P) == spIntersectsPoly(oSpatial(ftBase(f)), P)
+
+// argument position ("X.M(Feature f) == X.M(f.base)"): case analysis over the kind of the receiver a.
+// Contains: for every leaf receiver and EVERY kind of f.base (also Circle and collections).
+//@ lemma ftRightContains(a Object, f Object)
+//@   props C09
+//@   requires isLeafK(a) && isFeatureK(f)
+//@   unfold 2
+//@   ensures oContains(a, f) == oContains(a, ftBase(f))
+// Intersects: for every leaf receiver and every kind of f.base EXCEPT a point receiver against a Feature-wrapped Circle
+// (Point.Intersects special-cases a bare *Circle partner -> circle.Contains(point), but reaches a wrapped Circle through
+// Feature.IntersectsPoint -> circle.Spatial().IntersectsPoint = the polygon approximation): see X1pointIntersectsFeatureCircle below.
+//@ lemma ftRightIntersects(a Object, f Object)
+//@   props C09
+//@   requires isLeafK(a) && isFeatureK(f) && !(isPtK(a) && isCircleK(ftBase(f)))
+//@   unfold 2
+//@   ensures oIntersects(a, f) == oIntersects(a, ftBase(f))
+
+// both positions, one level of wrapping on either side
+//@ lemma ftBoth(a Object, b Object)
+//@   props C09
+//@   requires isGeomK(a) && isGeomK(b)
+//@   use ftLeft(a, b)
+//@   use ftLeft(a, geomOf(b))
+//@   use ftRightContains(geomOf(a), b)
+//@   use ftRightIntersects(geomOf(a), b)
+//@   ensures C: oContains(a, b) == oContains(geomOf(a), geomOf(b))
+//@   ensures I: oIntersects(a, b) == oIntersects(geomOf(a), geomOf(b))
+
+// symmetry with Feature wrappers on either side
+//@ lemma symGeom(a Object, b Object)
+//@   props C09
+//@   requires isGeomK(a) && isGeomK(b) && ObjInv(a) && ObjInv(b)
+//@   use ftBoth(a, b)
+//@   use ftBoth(b, a)
+//@   use symLeaf(geomOf(a), geomOf(b))
+//@   ensures oIntersects(a, b) == oIntersects(b, a)
+
+// ---------------------------------------------------------------- A.3 SimplePoint == Point with the same coordinates
+
+//@ spec func samePt(s Object, p Object) bool { isSimplePointK(s) && isPointK(p) && ptOf(s) == ptOf(p) }
+
+// as a Spatial: the eight Within*/Intersects* agree
+//@ lemma spPtSpatial(s Object, p Object, q geometry.Point, r geometry.Rect, l *geometry.Line, P *geometry.Poly)
+//@   props C09
+//@   requires samePt(s, p)
+//@   ensures WPoint: spWithinPoint(s, q) == spWithinPoint(p, q)
+//@   ensures IPoint: spIntersectsPoint(s, q) == spIntersectsPoint(p, q)
+//@   ensures WRect: spWithinRect(s, r) == spWithinRect(p, r)
+//@   ensures IRect: spIntersectsRect(s, r) == spIntersectsRect(p, r)
+//@   ensures WLine: spWithinLine(s, l) == spWithinLine(p, l)
+//@   ensures ILine: spIntersectsLine(s, l) == spIntersectsLine(p, l)
+//@   ensures WPoly: spWithinPoly(s, P) == spWithinPoly(p, P)
+//@   ensures IPoly: spIntersectsPoly(s, P) == spIntersectsPoly(p, P)
+
+// receiver position, EVERY partner kind x (Circle partner: oIntersects(point, circle) = oContains(circle, point) = containsPoint for
+// both representations by the definition of circleContainsS in PART B; collections: same Spatial, same point)
+//@ lemma spPtLeft(s Object, p Object, x Object)
+//@   props C09
+//@   requires samePt(s, p)
+//@   unfold 3
+//@   ensures C: oContains(s, x) == oContains(p, x)
+//@   ensures I: oIntersects(s, x) == oIntersects(p, x)
+
+// argument position, leaf receivers
+//@ lemma spPtRightLeaf(x Object, s Object, p Object)
+//@   props C09
+//@   requires samePt(s, p) && isLeafK(x)
+//@   unfold 2
+//@   ensures C: oContains(x, s) == oContains(x, p)
+//@   ensures I: oIntersects(x, s) == oIntersects(x, p)
+// argument position, Feature-wrapped leaf receivers
+//@ lemma spPtRight(x Object, s Object, p Object)
+//@   props C09
+//@   requires samePt(s, p) && isGeomK(x)
+//@   use ftLeft(x, s)
+//@   use ftLeft(x, p)
+//@   use spPtRightLeaf(geomOf(x), s, p)
+//@   ensures C: oContains(x, s) == oContains(x, p)
+//@   ensures I: oIntersects(x, s) == oIntersects(x, p)
+
+// ================================================================ PART B: Circle (C13, logical clauses over abstract great-circle functions)
+
+// the haversine of the great-circle distance between two lon/lat points, as the code calls it: geo.Haversine(p.Y, p.X, c.Y, c.X)
+//@ spec func havS(p geometry.Point, c geometry.Point) real { geo.haversineS(p.Y, p.X, c.Y, c.X) }
+//@ spec func circOf(o Object) *Circle { as(o,*Circle) }
+// the field Circle.object is never assigned in the package (NewCircle leaves it nil): invariant of every reachable Circle
+//@ spec func CircleInv(c *Circle) bool { c != nil && c.object == nil }
+
+//@ func Circle.Meters
+//@   props C13
+//@   arith abstract
+//@   requires g != nil
+//@   ensures result == g.meters
+//@ func Circle.Center
+//@   props C13 C11
+//@   arith abstract
+//@   requires g != nil
+//@   ensures result == g.center
+//@ func Circle.Haversine
+//@   props C13
+//@   arith abstract
+//@   requires g != nil
+//@   ensures result == g.haversine
+//@ func Circle.HaversineTo
+//@   props C13
+//@   arith abstract
+//@   requires g != nil
+//@   ensures result == havS(p, g.center)
+//@ func Circle.containsPoint
+//@   props C13
+//@   arith abstract
+//@   requires g != nil
+//@   ensures result == (havS(p, g.center) <= g.haversine)
+//@ func Circle.Empty
+//@   props C13 C11 C09
+//@   arith abstract
+//@   ensures !result
+//@ func Circle.NumPoints
+//@   props C13 C11 C09
+//@   arith abstract
+//@   ensures result == 1
+
+// NewCircle: steps below 3 are clamped to 3; for a positive radius haversine = DistanceToHaversine(NormalizeDistance(meters)), else 0
+//@ func NewCircle
+//@   props C13
+//@   arith abstract
+//@   ensures Fresh: result != nil && !old($alloc)[result]
+//@   ensures Fields: result.center == center && result.meters == meters && result.object == nil
+//@   ensures Steps: result.steps == ite(steps < 3, 3, steps)
+//@   ensures Hav: result.haversine == ite(meters > 0, geo.distanceToHaversineS(geo.normalizeDistanceS(meters)), 0)
+//@   ensures Inv: CircleInv(result)
+
+// makeCircleObject: TRUSTED. The body is a float loop over math.Cos/Sin and geo.DestinationPoint (numeric, out of the family).
+// It allocates a fresh immutable Polygon on every call; it is modelled as a deterministic function circlePolyS of its arguments
+// (the value of the approximation). ObjInv of the result is ASSUMED only so that the dispatch on the approximation
+// (which method is called with which arguments) can be expressed through the Object.* contracts: its vertices are not lattice
+// points, so none of the exact geometry-level results is claimed for it (C13: numeric clauses not applicable).
+//@ func makeCircleObject
+//@   props C13
+//@   arith abstract
+//@   trusted numeric construction of the polygon approximation; modelled as the uninterpreted circlePolyS (see comment)
+//@   pureas circlePolyS
+//@   ensures isPolygonK(result) && ObjInv(result)
+
+//@ func Circle.getObject
+//@   props C13
+//@   arith abstract
+//@   requires CircleInv(g)
+//@   dead cover.ret0   // `return g.object`: the field is never set, unreachable under the invariant
+//@   ensures result == circleObjS(g) && isPolygonK(result) && ObjInv(result)
+
+//@ func Circle.Polygon
+//@   props C13
+//@   arith abstract
+//@   requires ObjInv(g)
+//@   ensures result == circleObjS(g) && isPolygonK(result) && ObjInv(result)
+
+// distances: thin model (numeric), a Circle measures from its polygon approximation
+//@ spec func distLeafS(a Object, b Object) real
+//@ spec func oDistS(a Object, b Object) real { ite(isCircleK(a), distLeafS(circleObjS(a), b), distLeafS(a, b)) }
+//@ func Object.Distance
+//@   props C13
+//@   requires ObjInv(self) && ObjInv(obj)
+//@   ensures result == oDistS(self, obj)
+//@ func Circle.Distance
+//@   props C13
+//@   arith abstract
+//@   requires ObjInv(g) && ObjInv(other)
+//@   ensures result == oDistS(g, other)
+
+//@ func Circle.Rect
+//@   props C13 C11 C09
+//@   arith abstract
+//@   requires ObjShape(g)
+//@   unfold 2
+//@   ensures result == oRectS(g)
+//@ func Circle.Valid
+//@   props C13 C11 C09
+//@   arith abstract
+//@   requires ObjShape(g)
+//@   unfold 2
+//@   ensures result == oValidS(g)
+
+//@ spec func circleSpatialS(c Object) Spatial { circleObjS(c) }
+//@ func Circle.Spatial
+//@   props C09 C13
+//@   arith abstract
+//@   requires ObjInv(g)
+//@   ensures result == oSpatial(g) && SpInv(result)
+
+//@ func Circle.Within
+//@   props C09 C13
+//@   arith abstract
+//@   requires ObjInv(g) && ObjInv(obj)
+//@   ensures result == oContains(obj, g)
+
+// ---------------------------------------------------------------- Circle.Contains / Circle.Intersects: the type switches
+
+//@ func Point.Center
+//@   props C11 C13
+//@   arith order
+//@   requires g != nil
+//@   ensures result == g.base
+//@ func SimplePoint.Center
+//@   props C11 C13
+//@   arith order
+//@   requires g != nil
+//@   ensures result == g.Point
+
+// interface Collection (implemented by *collection, hence by the five kinds that embed it)
+//@ func Collection.Children
+//@   props C13 C10
+//@   requires isCollObjK(self)
+//@   ensures result == collOf(self).children
+
+// A-TREE: objects are finite trees (immutable, built bottom-up by the constructors and parsers; no API creates a cycle):
+// a nesting depth exists that strictly decreases from a collection to its children. Used ONLY as the termination measure of the
+// recursion Circle.Contains/Intersects(collection) -> Circle.Contains/Intersects(child).
+//@ spec func oDepthS(o Object) int
+//@ axiom ATree(o Object, i int)
+//@   requires isCollObjK(o) && 0 <= i && i < collN(collOf(o))
+//@   ensures 0 <= oDepthS(collChild(collOf(o), i)) && oDepthS(collChild(collOf(o), i)) < oDepthS(o)
+
+//@ spec func allKidsInS(g Object, c *collection, k int) bool rec { k <= 0 || (allKidsInS(g, c, k-1) && oContains(g, collChild(c, k-1))) }
+//@ lemma kidNotIn(g Object, c *collection, i int, k int)
+//@   props C13
+//@   requires 0 <= i && i < k && !oContains(g, collChild(c, i))
+//@   ensures !allKidsInS(g, c, k)
+//@   induction k
+
+// Circle.Contains by cases of the partner (the code's own case analysis):
+//   Point / SimplePoint -> haversine test; Circle -> other.Distance(g) + other.meters <= g.meters (d + rB <= rA, fix 4380854 of F8);
+//   any Collection -> every child is contained; *Feature -> its geometry (fix 58e861c); everything else (LineString, Polygon, Rect) -> polygon approximation.
+//@ spec func circleContainsS(c Object, b Object) bool rec {
+//@     ite(isPtK(b), havS(ptOf(b), circOf(c).center) <= circOf(c).haversine,
+//@     ite(isCircleK(b), fadd(oDistS(b, c), circOf(b).meters) <= circOf(c).meters,
+//@     ite(isCollObjK(b), allKidsInS(c, collOf(b), collN(collOf(b))),
+//@     ite(isFeatureK(b), oContains(c, ftBase(b)),
+//@         oContains(circleObjS(c), b))))) }
+
+//@ func Circle.Contains
+//@   props C09 C13
+//@   arith abstract
+//@   requires ObjInv(g) && ObjInv(obj)
+//@   decreases ite(isCollObjK(obj) || isFeatureK(obj), oDepthS(obj) + 1, 0)
+//@   unfold 2
+//@   entry use ATreeFt(obj)
+//@   ensures result == oContains(g, obj)
+//@   ensures PointIn: isPtK(obj) ==> result == (havS(ptOf(obj), g.center) <= g.haversine)
+//@   ensures CircleCmp: isCircleK(obj) ==> result == (fadd(oDistS(obj, g), circOf(obj).meters) <= g.meters)   // C13: d + rB <= rA
+//@   loop 0 invariant allKidsInS(g, collOf(obj), $i)
+//@   loop 0 assert collChild(collOf(obj), $i) == p
+//@   loop 0 begin use kidInv(collOf(obj), $i)
+//@   loop 0 begin use ATree(obj, $i)
+//@   ret use kidNotIn(g, collOf(obj), $i, collN(collOf(obj)))
+
+// ================================================================ A.4  contains ==> intersects & rect covers;  intersects ==> rects meet;  self
+// (object-level lemmas for the leaf pairs whose geometry-level predicates have definitions strong enough; the rows that need the
+// exactness of an uninterpreted leaf are listed in the report)
+
+// every Rect-kind operand is normalised (Min <= Max). NOT part of ObjInv: NewRect/ParseOptions accept an inverted rectangle, for which
+// "contains ==> intersects" and "intersects itself" are false (rectInside(o,r) holds, rectsMeet(r,o) does not).
+//@ spec func oBoxS(o Object) bool { isRectK(o) ==> geometry.rectOK(rectOf(o)) }
+
+// ---- geometry level: intersects ==> bounding rectangles meet
+//@ lemma geomIRPolyPoint(P *geometry.Poly, q geometry.Point)
+//@   props C09
+//@   requires geometry.PolyInv(P) && geometry.polyIntersectsPointS(P, q)
+//@   use outsideBox(geometry.polyExt(P), q)
+//@   ensures geometry.rectHas(geometry.polyRectS(P), q)
+//@ lemma geomIRRectLine(r geometry.Rect, l *geometry.Line)
+//@   props C09
+//@   requires geometry.rectIntersectsLineS(r, l)
+//@   ensures geometry.rectsMeet(r, geometry.lineRectS(l))
+//@ lemma geomIRPolyRect(P *geometry.Poly, r geometry.Rect)
+//@   props C09
+//@   requires geometry.polyIntersectsRectS(P, r)
+//@   ensures geometry.rectsMeet(geometry.polyRectS(P), r)
+//@ lemma geomIRLineLine(l *geometry.Line, m *geometry.Line)
+//@   props C09
+//@   requires geometry.lineIntersectsLineS(l, m)
+//@   ensures geometry.rectsMeet(geometry.lineRectS(l), geometry.lineRectS(m))
+//@ lemma geomIRPolyLine(P *geometry.Poly, l *geometry.Line)
+//@   props C09
+//@   requires geometry.polyIntersectsLineS(P, l)
+//@   ensures geometry.rectsMeet(geometry.polyRectS(P), geometry.lineRectS(l))
+//@ lemma geomIRPolyPoly(P *geometry.Poly, Q *geometry.Poly)
+//@   props C09
+//@   requires geometry.polyIntersectsPolyS(P, Q)
+//@   ensures geometry.rectsMeet(geometry.polyRectS(P), geometry.polyRectS(Q))
+
+// ---- geometry level: contains ==> bounding rectangle covers
+//@ lemma geomCRPolyPoint(P *geometry.Poly, q geometry.Point)
+//@   props C09
+//@   requires geometry.PolyInv(P) && geometry.polyContainsPointS(P, q)
+//@   use outsideBox(geometry.polyExt(P), q)
+//@   ensures geometry.rectHas(geometry.polyRectS(P), q)
+//@ lemma geomCRPolyRect(P *geometry.Poly, r geometry.Rect)
+//@   props C09
+//@   requires geometry.polyContainsRectS(P, r)
+//@   ensures geometry.rectInside(r, geometry.polyRectS(P))
+//@ lemma geomCRPolyLine(P *geometry.Poly, l *geometry.Line)
+//@   props C09
+//@   requires geometry.LineInv(l) && geometry.polyContainsLineS(P, l)
+//@   ensures geometry.rectInside(geometry.lineRectS(l), geometry.polyRectS(P))
+//@ lemma geomCRPolyPoly(P *geometry.Poly, Q *geometry.Poly)
+//@   props C09
+//@   requires geometry.polyContainsPolyS(P, Q)
+//@   ensures geometry.rectInside(geometry.polyRectS(Q), geometry.polyRectS(P))
+
+// ---- Circle.Intersects
+// A-TREE, Feature part: the geometry of a Feature is strictly shallower than the Feature (termination of Circle.Intersects(Feature))
+//@ axiom ATreeFt(o Object)
+//@   requires isFeatureK(o)
+//@   ensures 0 <= oDepthS(ftBase(o)) && oDepthS(ftBase(o)) < oDepthS(o)
+
+//@ spec func anyKidIxS(g Object, c *collection, k int) bool rec { k > 0 && (anyKidIxS(g, c, k-1) || oIntersects(g, collChild(c, k-1))) }
+//@ lemma kidIx(g Object, c *collection, i int, k int)
+//@   props C13
+//@   requires 0 <= i && i < k && oIntersects(g, collChild(c, i))
+//@   ensures anyKidIxS(g, c, k)
+//@   induction k
+
+// Circle.Intersects by cases of the partner (the code's own case analysis):
+//   *Point / *SimplePoint (fix 25d174d of F9) -> haversine test; Circle -> other.Distance(g) <= other.meters + g.meters;
+//   any Collection -> some child intersects; *Feature -> its geometry; everything else (LineString, Polygon, Rect) -> polygon approximation.
+//@ spec func circleIntersectsS(c Object, b Object) bool rec {
+//@     ite(isPtK(b), havS(ptOf(b), circOf(c).center) <= circOf(c).haversine,
+//@     ite(isCircleK(b), oDistS(b, c) <= fadd(circOf(b).meters, circOf(c).meters),
+//@     ite(isCollObjK(b), anyKidIxS(c, collOf(b), collN(collOf(b))),
+//@     ite(isFeatureK(b), oIntersects(c, ftBase(b)),
+//@         oIntersects(circleObjS(c), b))))) }
+
+//@ func Circle.Intersects
+//@   props C09 C13
+//@   arith abstract
+//@   requires ObjInv(g) && ObjInv(obj)
+//@   decreases ite(isCollObjK(obj) || isFeatureK(obj), oDepthS(obj) + 1, 0)
+//@   unfold 2
+//@   ensures result == oIntersects(g, obj)
+//@   ensures PointIn: isPtK(obj) ==> result == (havS(ptOf(obj), g.center) <= g.haversine)
+//@   ensures CircleCmp: isCircleK(obj) ==> result == (oDistS(obj, g) <= fadd(circOf(obj).meters, g.meters))   // C13: A intersects B iff d <= rA + rB
+//@   entry use ATreeFt(obj)
+//@   loop 0 invariant !anyKidIxS(g, collOf(obj), $i)
+//@   loop 0 assert collChild(collOf(obj), $i) == p
+//@   loop 0 begin use kidInv(collOf(obj), $i)
+//@   loop 0 begin use ATree(obj, $i)
+//@   ret use kidIx(g, collOf(obj), $i, collN(collOf(obj)))
+
+// F8 -- the PROPERTY's clause (C13): "circle A contains circle B only if centre distance + radius of B <= radius of A".
+// Before fix 4380854 Circle.Contains tested d < rB + rA (the INTERSECTS condition) and this lemma failed
+// (witness, replayed: NewCircle((0,0),1,12).Contains(NewCircle((0,0),10,12)) == true with d = 0, rB = 10, rA = 1). Must hold now.
+//@ lemma F8circleInCircle(a Object, b Object)
+//@   props C13
+//@   requires isCircleK(a) && isCircleK(b) && ObjInv(a) && ObjInv(b) && oContains(a, b)
+//@   unfold 2
+//@   ensures fadd(oDistS(b, a), circOf(b).meters) <= circOf(a).meters
+
+// F9 -- the PROPERTY's clause (C13/C09): "regardless of whether the point is a Point or SimplePoint".
+// Before fix 25d174d Circle.Intersects had no *SimplePoint case (a SimplePoint fell to the polygon approximation) and this lemma failed
+// (witness, replayed: circle (0,0) r=100km steps=12, p=(0.6358,0.6358): Intersects(NewPoint(p)) = true, Intersects(NewSimplePoint(p)) = false).
+// Must hold now.
+//@ lemma circleDispatch(c Object, x Object)
+//@   props C13 C09
+//@   requires isCircleK(c)
+//@   ensures oContains(c, x) == circleContainsS(c, x) && oIntersects(c, x) == circleIntersectsS(c, x)
+// (stated over circleIntersectsS = oIntersects(circle, .) by circleDispatch, so that the counter-model is found at the level of the dispatch)
+//@ lemma F9circleIntersectsPointRepr(c Object, s Object, p Object)
+//@   props C13 C09
+//@   requires isCircleK(c) && ObjInv(c) && samePt(s, p)
+//@   ensures circleIntersectsS(c, s) == circleIntersectsS(c, p)
+// the same clause for Contains HOLDS (both representations reach containsPoint)
+//@ lemma circleContainsPointRepr(c Object, s Object, p Object)
+//@   props C13 C09
+//@   requires isCircleK(c) && samePt(s, p)
+//@   unfold 2
+//@   ensures oContains(c, s) == oContains(c, p)
+// and operand order for points: Point/SimplePoint.Intersects(circle) is circle.Contains(point) (haversine), for both representations
+//@ lemma pointIntersectsCircle(a Object, c Object)
+//@   props C13 C09
+//@   requires isPtK(a) && isCircleK(c)
+//@   unfold 3
+//@   ensures oIntersects(a, c) == (havS(ptOf(a), circOf(c).center) <= circOf(c).haversine)
+//@   ensures oIntersects(a, c) == oContains(c, a)
+
+// X1 (found while proving Feature transparency; STILL A DEFECT on the current tree) -- a Feature-wrapped Circle is reached through Feature.IntersectsPoint ->
+// circle.Spatial().IntersectsPoint = the polygon approximation, a bare Circle through circle.Contains(point) = haversine:
+// "Feature answers as its geometry" and symmetry fail for Point x Feature(Circle).
+// FAILS (expected failing obligation geojson.lemma.X1pointIntersectsFeatureCircle#proof.0).
+// Replayed witness: same circle and p: NewPoint(p).Intersects(circle) = true, NewPoint(p).Intersects(NewFeature(circle,"")) = false,
+// NewFeature(circle,"").Intersects(NewPoint(p)) = true.
+//@ lemma X1a(a Object, f Object)
+//@   props C09 C13
+//@   requires isPtK(a) && isFeatureK(f) && isCircleK(ftBase(f))
+//@   unfold 2
+//@   ensures oIntersects(a, f) == spIntersectsPoint(circleObjS(ftBase(f)), ptOf(a))   // wrapped Circle: polygon approximation
+//@ lemma X1b(a Object, f Object)
+//@   props C09 C13
+//@   requires isPtK(a) && isFeatureK(f) && isCircleK(ftBase(f))
+//@   unfold 3
+//@   ensures oIntersects(a, ftBase(f)) == (havS(ptOf(a), circOf(ftBase(f)).center) <= circOf(ftBase(f)).haversine)   // bare Circle: haversine
+//@ lemma X1pointIntersectsFeatureCircle(a Object, f Object)
+//@   props C09 C13
+//@   requires isPtK(a) && isFeatureK(f) && isCircleK(ftBase(f)) && ObjInv(f)
+//@   use X1a(a, f)
+//@   use X1b(a, f)
+//@   ensures oIntersects(a, f) == oIntersects(a, ftBase(f))
+// X2 (found while proving Feature transparency; fixed by 58e861c) -- Circle.Contains had no *Feature case (Circle.Intersects has one): a
+// Feature-wrapped point was tested against the polygon approximation, a bare point against the haversine, and this lemma failed
+// (witness, replayed: circle (0,0) r=100km steps=12, p=(0.6358,0.6358): circle.Contains(NewPoint(p)) = true, circle.Contains(NewFeature(NewPoint(p),"")) = false).
+// Must hold now, for every kind of f.base.
+//@ lemma X2circleContainsFeaturePoint(c Object, f Object)
+//@   props C09 C13
+//@   requires isCircleK(c) && isFeatureK(f)
+//@   unfold 2
+//@   ensures oContains(c, f) == oContains(c, ftBase(f))
+// Circle.Intersects(Feature f) == Circle.Intersects(f.base) HOLDS (explicit *Feature case)
+//@ lemma circleIntersectsFeature(c Object, f Object)
+//@   props C09 C13
+//@   requires isCircleK(c) && isFeatureK(f)
+//@   unfold 2
+//@   ensures oIntersects(c, f) == oIntersects(c, ftBase(f))
+
+// ---------------------------------------------------------------- A.4 object level
+
+// intersects ==> rectangles meet, one lemma per unordered pair of geometry kinds, either operand order.
+// MISSING ROW: {Point,SimplePoint} x LineString needs "a point on a line lies in the line's stored rectangle"; LineInv does not carry
+// the rect-covers-points conjunct (RingInv does), see report.
+//@ lemma irPtPt(a Object, b Object)
+//@   props C09
+//@   requires isPtK(a) && isPtK(b) && ObjInv(a) && ObjInv(b) && (oIntersects(a, b) || oIntersects(b, a))
+//@   unfold 2
+//@   ensures geometry.rectsMeet(oRectS(a), oRectS(b)) && geometry.rectsMeet(oRectS(b), oRectS(a))
+//@ lemma irPtRect(a Object, b Object)
+//@   props C09
+//@   requires isPtK(a) && isRectK(b) && ObjInv(a) && ObjInv(b) && (oIntersects(a, b) || oIntersects(b, a))
+//@   unfold 2
+//@   ensures geometry.rectsMeet(oRectS(a), oRectS(b)) && geometry.rectsMeet(oRectS(b), oRectS(a))
+//@ lemma irRectRect(a Object, b Object)
+//@   props C09
+//@   requires isRectK(a) && isRectK(b) && ObjInv(a) && ObjInv(b) && (oIntersects(a, b) || oIntersects(b, a))
+//@   unfold 2
+//@   ensures geometry.rectsMeet(oRectS(a), oRectS(b)) && geometry.rectsMeet(oRectS(b), oRectS(a))
+//@ lemma irPtPoly(a Object, b Object)
+//@   props C09
+//@   requires isPtK(a) && isPolygonK(b) && ObjInv(a) && ObjInv(b) && (oIntersects(a, b) || oIntersects(b, a))
+//@   unfold 2
+//@   use geomIRPolyPoint(polyOf(b), ptOf(a))
+//@   ensures geometry.rectsMeet(oRectS(a), oRectS(b)) && geometry.rectsMeet(oRectS(b), oRectS(a))
+//@ lemma irRectLine(a Object, b Object)
+//@   props C09
+//@   requires isRectK(a) && isLineStringK(b) && ObjInv(a) && ObjInv(b) && (oIntersects(a, b) || oIntersects(b, a))
+//@   unfold 2
+//@   use geomIRRectLine(rectOf(a), lineOf(b))
+//@   ensures geometry.rectsMeet(oRectS(a), oRectS(b)) && geometry.rectsMeet(oRectS(b), oRectS(a))
+//@ lemma irRectPoly(a Object, b Object)
+//@   props C09
+//@   requires isRectK(a) && isPolygonK(b) && ObjInv(a) && ObjInv(b) && (oIntersects(a, b) || oIntersects(b, a))
+//@   unfold 2
+//@   use geomIRPolyRect(polyOf(b), rectOf(a))
+//@   ensures geometry.rectsMeet(oRectS(a), oRectS(b)) && geometry.rectsMeet(oRectS(b), oRectS(a))
+//@ lemma irLineLine(a Object, b Object)
+//@   props C09
+//@   requires isLineStringK(a) && isLineStringK(b) && ObjInv(a) && ObjInv(b) && (oIntersects(a, b) || oIntersects(b, a))
+//@   unfold 2
+//@   use geomIRLineLine(lineOf(a), lineOf(b))
+//@   use geomIRLineLine(lineOf(b), lineOf(a))
+//@   ensures geometry.rectsMeet(oRectS(a), oRectS(b)) && geometry.rectsMeet(oRectS(b), oRectS(a))
+//@ lemma irLinePoly(a Object, b Object)
+//@   props C09
+//@   requires isLineStringK(a) && isPolygonK(b) && ObjInv(a) && ObjInv(b) && (oIntersects(a, b) || oIntersects(b, a))
+//@   unfold 2
+//@   use geomIRPolyLine(polyOf(b), lineOf(a))
+//@   ensures geometry.rectsMeet(oRectS(a), oRectS(b)) && geometry.rectsMeet(oRectS(b), oRectS(a))
+//@ lemma irPolyPoly(a Object, b Object)
+//@   props C09
+//@   requires isPolygonK(a) && isPolygonK(b) && ObjInv(a) && ObjInv(b) && (oIntersects(a, b) || oIntersects(b, a))
+//@   unfold 2
+//@   use geomIRPolyPoly(polyOf(a), polyOf(b))
+//@   use geomIRPolyPoly(polyOf(b), polyOf(a))
+//@   ensures geometry.rectsMeet(oRectS(a), oRectS(b)) && geometry.rectsMeet(oRectS(b), oRectS(a))
+//@ lemma lawIntersectsRects(a Object, b Object)
+//@   props C09
+//@   requires isLeafK(a) && isLeafK(b) && ObjInv(a) && ObjInv(b) && !(isPtK(a) && isLineStringK(b)) && !(isLineStringK(a) && isPtK(b))
+//@   requires oIntersects(a, b)
+//@   use irPtPt(a, b)
+//@   use irPtRect(a, b)
+//@   use irPtRect(b, a)
+//@   use irRectRect(a, b)
+//@   use irPtPoly(a, b)
+//@   use irPtPoly(b, a)
+//@   use irRectLine(a, b)
+//@   use irRectLine(b, a)
+//@   use irRectPoly(a, b)
+//@   use irRectPoly(b, a)
+//@   use irLineLine(a, b)
+//@   use irLinePoly(a, b)
+//@   use irLinePoly(b, a)
+//@   use irPolyPoly(a, b)
+//@   ensures geometry.rectsMeet(oRectS(a), oRectS(b))
+
+// contains (non-empty partner) ==> rect(A) covers rect(B): receivers Point/SimplePoint, Rect, Polygon against every leaf partner.
+// MISSING ROWS: LineString receiver (Line.ContainsLine/ContainsRect/ContainsPoly are specified through the uninterpreted leaves lclS/lcsS,
+// and a point partner needs the rect-covers-points fact that LineInv lacks).
+//@ lemma crPt(a Object, b Object)
+//@   props C09
+//@   requires isPtK(a) && isLeafK(b) && oContains(a, b) && !oEmptyS(b)
+//@   unfold 2
+//@   ensures geometry.rectInside(oRectS(b), oRectS(a))
+//@ lemma crRect(a Object, b Object)
+//@   props C09
+//@   requires isRectK(a) && isLeafK(b) && oContains(a, b) && !oEmptyS(b)
+//@   unfold 2
+//@   ensures geometry.rectInside(oRectS(b), oRectS(a))
+//@ lemma crPoly(a Object, b Object)
+//@   props C09
+//@   requires isPolygonK(a) && isLeafK(b) && ObjInv(a) && ObjInv(b) && oContains(a, b) && !oEmptyS(b)
+//@   unfold 2
+//@   use geomCRPolyPoint(polyOf(a), ptOf(b))
+//@   use geomCRPolyRect(polyOf(a), rectOf(b))
+//@   use geomCRPolyLine(polyOf(a), lineOf(b))
+//@   use geomCRPolyPoly(polyOf(a), polyOf(b))
+//@   ensures geometry.rectInside(oRectS(b), oRectS(a))
+//@ lemma lawContainsRects(a Object, b Object)
+//@   props C09
+//@   requires (isPtK(a) || isRectK(a) || isPolygonK(a)) && isLeafK(b) && ObjInv(a) && ObjInv(b) && oContains(a, b) && !oEmptyS(b)
+//@   use crPt(a, b)
+//@   use crRect(a, b)
+//@   use crPoly(a, b)
+//@   ensures geometry.rectInside(oRectS(b), oRectS(a))
+
+// contains ==> intersects: the rows whose two predicates are exact and comparable by definition:
+// {Point,SimplePoint,Rect} x {Point,SimplePoint,Rect} (Rect partners normalised, see oBoxS) and {LineString,Polygon} x {Point,SimplePoint}.
+// MISSING ROWS: a LineString / Polygon partner or receiver against a non-point (needs exactness of rcsS / risS / lclS: "a ring that
+// contains a segment is intersected by it"), and Point receiver against a degenerate LineString/Polygon (needs "a non-empty series whose
+// rectangle is the single point p passes through p").
+//@ lemma ciPtRect(a Object, b Object)
+//@   props C09
+//@   requires (isPtK(a) || isRectK(a)) && (isPtK(b) || isRectK(b)) && oBoxS(b) && oContains(a, b)
+//@   unfold 2
+//@   ensures oIntersects(a, b)
+//@ lemma ciLinePt(a Object, b Object)
+//@   props C09
+//@   requires isLineStringK(a) && isPtK(b) && oContains(a, b)
+//@   unfold 2
+//@   ensures oIntersects(a, b)
+//@ lemma ciPolyPt(a Object, b Object)
+//@   props C09
+//@   requires isPolygonK(a) && isPtK(b) && oContains(a, b)
+//@   unfold 2
+//@   ensures oIntersects(a, b)
+
+// a (non-empty, valid) object contains and intersects itself: Point, SimplePoint, normalised Rect.
+// MISSING ROWS: LineString (lclS uninterpreted), Polygon (needs exactness of rcsS/risS on the ring against its own segments).
+//@ lemma selfPtRect(a Object)
+//@   props C09
+//@   requires (isPtK(a) || isRectK(a)) && oBoxS(a)
+//@   unfold 2
+//@   ensures oContains(a, a) && oIntersects(a, a)
+
+// ---------------------------------------------------------------- C13: containment is monotone in the radius
+// a Circle as NewCircle builds it (contract of NewCircle, clause Hav)
+//@ spec func circleWiredS(c Object) bool { isCircleK(c) && circOf(c).haversine == ite(circOf(c).meters > 0, geo.distanceToHaversineS(geo.normalizeDistanceS(circOf(c).meters)), 0) }
+//@ lemma circleMonotone(a Object, b Object, p Object)
+//@   props C13
+//@   requires circleWiredS(a) && circleWiredS(b) && isPtK(p) && circOf(a).center == circOf(b).center
+//@   requires 0 <= circOf(a).meters && circOf(a).meters <= circOf(b).meters && circOf(b).meters <= geo.piRS()
+//@   use ANormalizeId(circOf(a).meters)
+//@   use ANormalizeId(circOf(b).meters)
+//@   use ADistanceToHaversineMono(circOf(a).meters, circOf(b).meters)
+//@   use ADistanceToHaversineMono(0, circOf(b).meters)
+//@   use ADistanceToHaversineZero()
+//@   unfold 2
+//@   ensures oContains(a, p) ==> oContains(b, p)
+// ... and in the other operand order (Point/SimplePoint.Intersects(circle) is circle.Contains(point))
+//@ lemma circleMonotoneI(a Object, b Object, p Object)
+//@   props C13
+//@   requires circleWiredS(a) && circleWiredS(b) && isPtK(p) && circOf(a).center == circOf(b).center
+//@   requires 0 <= circOf(a).meters && circOf(a).meters <= circOf(b).meters && circOf(b).meters <= geo.piRS()
+//@   use circleMonotone(a, b, p)
+//@   use pointIntersectsCircle(p, a)
+//@   use pointIntersectsCircle(p, b)
+//@   ensures oIntersects(p, a) ==> oIntersects(p, b)
+
+// ================================================================ A.3 Rect == the Polygon whose exterior is that rectangle (geometry level)
+// isRectPolyS(P, r): exterior of P is the rectangle r as a ring, no holes -- exactly what Rect.Polygon() builds (contract above).
+
+// point membership in the rectangle ring is membership in the rectangle (4 segments, unrolled)
+//@ lemma rectRingPip(r geometry.Rect, q geometry.Point)
+//@   props C09 C01
+//@   requires geometry.rectOK(r)
+//@   unfold 6
+//@   ensures geometry.pipClosed(boxRect(r), q) == geometry.rectHas(r, q)
+
+// point partner / point receiver: Rect and its polygon give the same answers (polyContainsPointS / polyIntersectsPointS are, by the proved
+// contracts of Poly.ContainsPoint / IntersectsPoint, `P != nil && polyHas(P,q)`)
+//@ lemma rectAsPolyPoint(r geometry.Rect, P *geometry.Poly, q geometry.Point)
+//@   props C09
+//@   requires geometry.rectOK(r) && isRectPolyS(P, r)
+//@   use rectRingPip(r, q)
+//@   ensures RC: geometry.rectContainsPointS(r, q) == (P != nil && geometry.polyHas(P, q))
+//@   ensures RI: geometry.rectIntersectsPointS(r, q) == (P != nil && geometry.polyHas(P, q))
+//@   ensures PI: geometry.pointIntersectsRectS(q, r) == geometry.pointIntersectsPolyS(q, P)
+// LineString partner, Intersects: identical by definition (both are ringIntersectsLineS of the rectangle ring)
+//@ lemma rectAsPolyLineI(r geometry.Rect, P *geometry.Poly, l *geometry.Line)
+//@   props C09
+//@   requires isRectPolyS(P, r)
+//@   ensures RI: geometry.rectIntersectsLineS(r, l) == geometry.polyIntersectsLineS(P, l)
+//@   ensures LI: geometry.lineIntersectsRectS(l, r) == geometry.lineIntersectsPolyS(l, P)
+// Rect partner, Contains: rectInside versus "all five ring points of o hit the convex ring r"
+//@ lemma rectAsPolyRectC(r geometry.Rect, P *geometry.Poly, o geometry.Rect)
+//@   props C09
+//@   requires geometry.rectOK(r) && geometry.rectOK(o) && isRectPolyS(P, r)
+//@   use rectRingPip(r, geometry.rectPt(o, 0))
+//@   use rectRingPip(r, geometry.rectPt(o, 1))
+//@   use rectRingPip(r, geometry.rectPt(o, 2))
+//@   use rectRingPip(r, geometry.rectPt(o, 3))
+//@   ensures geometry.rectContainsRectS(r, o) == geometry.polyContainsRectS(P, o)
+// as ARGUMENT of a Polygon receiver: Poly.ContainsRect / IntersectsRect versus ContainsPoly / IntersectsPoly of the rectangle polygon
+//@ lemma rectAsPolyArg(Q *geometry.Poly, r geometry.Rect, P *geometry.Poly)
+//@   props C09
+//@   requires isRectPolyS(P, r)
+//@   ensures C: geometry.polyContainsRectS(Q, r) == geometry.polyContainsPolyS(Q, P)
+//@   ensures I: geometry.polyIntersectsRectS(Q, r) == geometry.polyIntersectsPolyS(Q, P)
+// Polygon partner, Intersects: equal up to the operand order of ringIntersectsRingS (relative to geomSymRisAny)
+//@ spec func rectDomS(r geometry.Rect) bool { geometry.rectOK(r) && geometry.inDom(r.Min) && geometry.inDom(r.Max) }
+//@ lemma rectRingInv(r geometry.Rect)
+//@   props C09
+//@   requires rectDomS(r)
+//@   ensures geometry.RingInv(boxRect(r))
+//@ lemma rectAsPolyPolyI(r geometry.Rect, P *geometry.Poly, Q *geometry.Poly)
+//@   props C09
+//@   requires rectDomS(r) && isRectPolyS(P, r) && geometry.PolyInv(Q)
+//@   use rectRingInv(r)
+//@   use geomSymRingRing(boxRect(r), geometry.polyExt(Q))
+//@   ensures geometry.rectIntersectsPolyS(r, Q) == geometry.polyIntersectsPolyS(P, Q)
+// MISSING: Rect.ContainsLine / ContainsPoly (bounding-box tests) versus Poly.ContainsLine / ContainsPoly of the rectangle polygon (every vertex
+// inside the convex ring) need "the stored rectangle covers every vertex" for Line (not in LineInv) and the vertex/segment-endpoint link for rings;
+// Rect.IntersectsRect (rectsMeet) versus Poly.IntersectsRect (ringIntersectsRingS: needs the exactness of the leaf risS).
